@@ -20,11 +20,15 @@ Union/Intersect/Sub/Xor is executed by the harness (go/cmd/c05), which appends t
                 rejected call is a VIOLATION.  A random degenerate-lattice stream is run as an observation only.
 
 Anything but `valid <judgements>` (invalid <witness>, operands-modified, empty-mismatch, panic, timeout, crash) is a
-violation.  Every call runs under a 5 s watchdog inside the harness (a looping clipper costs seconds: after three
-timeouts the rest of that stream is skipped).
+violation.  Every call runs under a 2 s watchdog inside the harness (a looping clipper costs seconds: the harness exits
+with status 124, the rest of that stream is skipped; the first such line is re-run alone with an 8 s limit before it is
+reported, so a stall of an overloaded machine is not mistaken for a loop).
 """
 import hashlib
 import json
+import os
+import subprocess
+import time
 from concurrent.futures import ThreadPoolExecutor
 
 DRIVER = "drv_c05"
@@ -37,9 +41,9 @@ N_CALLS = {
 }
 
 
-def _validate(ctx, area, lines):
+def _validate(ctx, area, lines, extra_env=None):
     """-> list of (line, impl_out, verdict)"""
-    io = ctx.run_impl(area, lines, timeout=300 if ctx.tier == "quick" else 1800)
+    io = ctx.run_impl(area, lines, timeout=300 if ctx.tier == "quick" else 1800, extra_env=extra_env)
     if io is None:
         return None
     joined = [l + " => " + o for l, o in zip(lines, io)]
@@ -106,6 +110,24 @@ def _report(ctx, S, counters):
         if counters["reported"] >= 4:
             counters["suppressed"] += 1
             continue
+        if out.startswith("crash:exit124"):
+            # the 2 s watchdog fired: confirm alone with an 8 s limit before calling it a loop (machine stalls)
+            if counters.get("timeout_confirmations", 0) >= 1:
+                counters["suppressed"] += 1
+                continue
+            counters["timeout_confirmations"] = 1
+            env = dict(os.environ)
+            env["C05_CALL_TIMEOUT_MS"] = "8000"
+            try:
+                p = subprocess.run([ctx.harness_bin["harness"], "run", area], input=line + "\n", env=env, text=True,
+                                   stdout=subprocess.PIPE, stderr=subprocess.PIPE, timeout=60, cwd=ctx.work)
+                rc = p.returncode
+            except subprocess.TimeoutExpired:
+                rc = 124
+            if rc == 0:
+                counters["spurious_timeouts"] = counters.get("spurious_timeouts", 0) + 1
+                continue
+            out, verdict = "timeout", "invalid impl:timeout (call did not return within 8 s)"
         counters["reported"] += 1
         rep = {"property": "C05", "kind": "translation-validation", "area": area, "stream": tag, "driver": DRIVER,
                "harness": "harness", "ops": [line], "impl_outputs": [out], "model_outputs": [verdict],
@@ -151,7 +173,11 @@ def run(ctx):
         "edge of A, B and R); lattice calls are decided at every point of every open unit cell, points on lattice "
         "lines are not judged",
     ]
+    t0 = time.time()
     ctx.lean(props=["Props.C05"], drivers=[DRIVER])
+    # the Lean phase waits on the lock shared by ALL checks (.work/lean.lock): its wall time is not this check's cost
+    ctx.extra["wall_lean_phase_incl_shared_lock_wait_s"] = round(time.time() - t0, 1)
+    t1 = time.time()
     if not ctx.harness("./cmd/c05"):
         return
     if ctx.replay:
@@ -228,6 +254,7 @@ def run(ctx):
             counters["programs_large"] = counters.get("programs_large", 0) + S["programs"]
         counters["empty_results"] += S["empty_results"]
         _report(ctx, S, counters)
+    ctx.extra["wall_harness_and_streams_s"] = round(time.time() - t1, 1)
     ctx.extra["programs"] = counters["programs"]
     ctx.extra["disagreements_checked"] = counters["judgements"]
     ctx.extra["judgements_lattice_cells_exhaustive"] = counters.get("judgements_lattice", 0)
@@ -236,6 +263,7 @@ def run(ctx):
     ctx.extra["empty_results"] = counters["empty_results"]
     ctx.extra["violations_not_listed"] = counters["suppressed"]
     ctx.extra["known_finding_inputs_hit"] = counters.get("known", 0)
+    ctx.extra["watchdog_timeouts_not_confirmed"] = counters.get("spurious_timeouts", 0)
     ctx.extra["exhaustive"] = False
     ctx.rules.append(
         "programs = clipper calls (one per op line: op, float type, A, B) executed by the real code and accepted by the "
